@@ -26,7 +26,7 @@ JSpec == JInit /\ [][JNext]_jvars
 Rec == JRecs[i]
 UBase == JRecs[ui].u
 UNow == [ types |-> UBase.types, nodeType |-> UBase.nodeType, roots |-> UBase.roots,
-          nth |-> {f \in Range(Rec.faults) : Len(f) = 3},
+          nth |-> {f \in Range(Rec.faults) : Len(f) \in {3, 4}},
           data |-> [nd \in DOMAIN UBase.data |->
                       [f \in DOMAIN UBase.data[nd] |->
                          IF <<nd, f>> \in Range(Rec.faults) THEN ErrV("injected") ELSE UBase.data[nd][f]]] ]
